@@ -38,6 +38,8 @@ FEATURES = ["where-alias", "where-complex", "groupby-alias", "groupby-selected-a
             "setop-aliased-branches",
             # a reference to a table of the statement around the query (correlation): the query's own reason to qualify its columns
             "correlated-where", "correlated-prewhere", "correlated-where-only-reason",
+            # constants whose text looks like a template to whatever assembles the outer statement
+            "braces-string", "braces-json", "empty-array", "percent-string", "backslash-string",
             # data-modifying statements with RETURNING as CTE bodies (PostgreSQL): the body is the statement's stand-alone text
             "dml-insert-returning", "dml-insert-select-returning", "dml-delete-returning", "dml-update-returning", "dml-update-from-returning"]
 DML_FEATURES = {f for f in FEATURES if f.startswith("dml-")}
@@ -116,6 +118,16 @@ def build_inner(Q, feats, depth=0):
         q = q.where(t.b > T("tout").lim).where(t.c == 1)
     if "correlated-prewhere" in feats:
         q = q.prewhere(t.b < T("tout").y)
+    if "braces-string" in feats:
+        q = q.where(t.s1 == "Hello {{name}} {0} {x} }{").select(r["ValueWrapper"]("{}").as_("br"))
+    if "braces-json" in feats:
+        q = q.where(t.j1 == {"k": {"n": [1, "{v}"]}})
+    if "empty-array" in feats:
+        q = q.where(t.arr1 == []).where(t.arr2 == [1, 2])
+    if "percent-string" in feats:
+        q = q.where(t.s2.like("100%% %s %(x)s %d"))
+    if "backslash-string" in feats:
+        q = q.where(t.s3 == "a\\b \\1 \\g<0> $1 \\n")
     if "where-complex" in feats:
         q = q.where((t.a > 1) | (t.b < 2)).where((t.c == 3) & ((t.a == 1) | (t.b == 2)))
     if "between-alias" in feats:
@@ -305,10 +317,16 @@ def run_case(case, mon):
         return  # (a data-modifying statement is embedded as a CTE body only)
     try:
         s_alone = render(alone, d, mode)
-        s_outer = render(outer, d, mode)
     except Exception as e:
         mon.count("render_raises")
         mon.add("render_raises", "%s:%s:%s" % (pos, type(e).__name__, str(e)[:40]))
+        return
+    try:
+        s_outer = render(outer, d, mode)
+    except Exception as e:
+        # the query renders on its own: embedding it must not make rendering fail
+        mon.violation("%s:embedding-raises:%s:%s" % (pos, type(e).__name__, fam), "%s/%s (%s): the query renders alone (%r) but the statement that embeds it raises %r" % (
+            pos, d, mode, s_alone[:200], e), {"alone": s_alone})
         return
     mon.count("embeddings_rendered")
     mon.add("cells", "%s|%s" % (pos, fam))
